@@ -320,6 +320,14 @@ def c13():
         shapes_ = [(k, m, hd) for (k, m, hd) in XOR_TABLES[::5]] if be == 3 else [(1, 0, 0), (3, 0, 0), (1, 1, 1), (2, 1, 1), (31, 1, 1), (1, 31, 31), (16, 16, 16), (4, 2, 2)]
         for (k, m, hd) in shapes_:
             cyc.append(sweep_cmd(be, k, m, hd, 2, 3 * align(be, max(k, 1)) + 1, _seed_of(chk, k * 40 + m), 0, 1, 40, 1 | 8 | 16))
+    # ... whatever word size the caller asked for: a configuration is either refused or the instance works (encode,
+    # size queries, decode and reconstruct of sampled erasure sets, destroy) without arithmetic or memory faults
+    for be, (k, m, hd) in ((BE_RS, (4, 2, 2)), (BE_RS, (3, 3, 3)), (BE_XOR, (5, 5, 3)), (BE_ISAL_VAND, (4, 2, 2)), (BE_ISAL_CAUCHY, (5, 3, 3))):
+        for w in (1, 4, 7, 8, 12, 15, 17, 24, 32, 33, 64, 0, -1, -8):
+            if w == WORD.get(be, 16):
+                continue
+            for L in (1, 53, 1000):
+                cyc.append("sweep_dec %d %d %d %d %d %d %d %d %d %d %d %d" % (be, k, m, hd, w, 2, L, _seed_of(chk, w * 31 + L), 0, 2, 6, 1 | 8 | 16))
     fc, ec, rcn = run_sweeps("asan", cyc, "C13-cycle")
     vc = validate("TraceCodes", fc)
     _collect(chk, vc, ["C13", "C01", "C02", "C03", "fault"])
